@@ -78,11 +78,16 @@ func genC18(c *Chooser) *c18Graph {
 		posOf[v] = i
 	}
 	names := c18Names
+	unicodeNames := false
 	if huge {
 		names = make([]string, n)
 		for i := range names {
 			names[i] = fmt.Sprintf("j%d", i)
 		}
+	} else if c.Weighted("world.unicodenames", 1, 20) {
+		// ids that are different texts (also after lower-casing) although Unicode case folding relates some of them
+		unicodeNames = true
+		names = []string{"s", "\u017f", "x", "y", "\u03c3", "\u03c2", "\u00b5", "\u03bc"}
 	} else if c.Weighted("world.oddnames", 1, 10) {
 		names = make([]string, len(c18Names))
 		for i, n := range c18Names {
@@ -90,7 +95,13 @@ func genC18(c *Chooser) *c18Graph {
 		}
 	}
 	for _, v := range order {
-		job := c18Job{ID: c18Case(c, names[v])}
+		cs := func(x string) string {
+			if unicodeNames {
+				return x // (changing the case of these would make different ids equal)
+			}
+			return c18Case(c, x)
+		}
+		job := c18Job{ID: cs(names[v])}
 		for w := 0; w < n; w++ {
 			var p int // probability of edge v->w in 1/12
 			switch shape {
@@ -133,9 +144,9 @@ func genC18(c *Chooser) *c18Graph {
 				den = 60 // keep large random graphs sparse
 			}
 			if p > 0 && c.Weighted("world.edge", p, den) {
-				job.Needs = append(job.Needs, c18Case(c, names[w]))
+				job.Needs = append(job.Needs, cs(names[w]))
 				if c.Weighted("world.dupedge", 1, 16) {
-					job.Needs = append(job.Needs, c18Case(c, names[w]))
+					job.Needs = append(job.Needs, cs(names[w]))
 				}
 			}
 		}
